@@ -321,6 +321,68 @@ theorem offsets_nonneg_and_recovered (t e : Ts) (r : Nat) (hr : 1 ≤ r) (ht : I
     rw [hle] at this; cases this
   omega
 
+
+/-! ### a time the reader computed is written and read back as itself (re-export of a block that was read: cdns-merge) -/
+
+/-- whatever `add_time_offset` returns on an in-range reference is itself in range and normalised -/
+theorem add_result_normal (e : Ts) (off : Int) (r : Nat) (hr : 1 ≤ r) (he : InRange e r) (t : Ts)
+    (h : addTimeOffset e off r = .ok t) : InRange t r ∧ t.ticks < r := by
+  unfold addTimeOffset at h
+  have hr0 : ¬ r = 0 := by omega
+  simp only [hr0, if_false] at h
+  rw [rawTicks_eq e r he, toI64_small _ he] at h
+  have hE : inst e r < two63 := he
+  by_cases g1 : off < 0 ∧ (off = -(two63 : Int) ∨ -off > (inst e r : Int))
+  · simp only [g1, and_self, if_true] at h; cases h
+  · rw [if_neg g1] at h
+    by_cases g2 : off > 0 ∧ (inst e r : Int) > (two63 : Int) - 1 - off
+    · rw [if_pos g2] at h; cases h
+    · rw [if_neg g2] at h
+      have hlo : 0 ≤ (inst e r : Int) + off := by unfold two63 at *; omega
+      have hhi : (inst e r : Int) + off < (two63 : Int) := by unfold two63 at *; omega
+      obtain ⟨N, hN⟩ := Int.eq_ofNat_of_zero_le hlo
+      have hN63 : N < two63 := by rw [hN] at hhi; exact_mod_cast hhi
+      rw [hN, ofI64_nat N (by unfold two63 at hN63; unfold two64; omega)] at h
+      have ht : t = { secs := N / r, ticks := N % r } := by cases h; rfl
+      subst ht
+      have hpos : 0 < r := by omega
+      refine ⟨?_, Nat.mod_lt _ hpos⟩
+      unfold InRange inst
+      show N / r * r + N % r < two63
+      rw [Nat.div_add_mod' N r]; exact hN63
+
+/-- … hence the offset the writer computes for it from the same reference, added back by the reader, gives the same time:
+    `add_time_offset(get_time_offset(t, e), e) = t` for every `t` that `add_time_offset` produced from `e` (negative offsets
+    included) -/
+theorem reoffset_recovers (e : Ts) (off : Int) (r : Nat) (hr : 1 ≤ r) (he : InRange e r) (t : Ts)
+    (h : addTimeOffset e off r = .ok t) :
+    ∃ d : Int, getTimeOffset t e r = .ok d ∧ addTimeOffset e (toI64 (ofI64 d)) r = .ok t := by
+  obtain ⟨htr, htn⟩ := add_result_normal e off r hr he t h
+  refine ⟨(inst t r : Int) - (inst e r : Int), offset_exact t e r hr htr he, ?_⟩
+  have hT : inst t r < two63 := htr
+  have hE : inst e r < two63 := he
+  have hid : toI64 (ofI64 ((inst t r : Int) - (inst e r : Int))) = (inst t r : Int) - (inst e r : Int) := by
+    unfold toI64 ofI64
+    unfold two63 at *
+    unfold two64
+    by_cases hge : inst e r ≤ inst t r
+    · have h1 : ((inst t r : Int) - (inst e r : Int)) % ((18446744073709551616 : Nat) : Int) = (inst t r : Int) - (inst e r : Int) :=
+        Int.emod_eq_of_lt (by omega) (by omega)
+      rw [h1]
+      have h2 : ((inst t r : Int) - (inst e r : Int)).toNat < 9223372036854775808 := by omega
+      simp only [h2, if_true]
+      omega
+    · have h1 : ((inst t r : Int) - (inst e r : Int)) % ((18446744073709551616 : Nat) : Int) =
+          (inst t r : Int) - (inst e r : Int) + 18446744073709551616 := by
+        rw [← Int.add_emod_right]
+        exact Int.emod_eq_of_lt (by omega) (by omega)
+      rw [h1]
+      have h2 : ¬ ((inst t r : Int) - (inst e r : Int) + 18446744073709551616).toNat < 9223372036854775808 := by omega
+      simp only [h2, if_false]
+      omega
+  rw [hid]
+  exact add_inverse t e r hr htr he htn
+
 /-! Non-vacuity: concrete values meet the hypotheses; the INT64_MIN offset is refused. -/
 example : InRange ⟨1636068056, 971687⟩ 1000000 ∧ (971687 : Nat) < 1000000 := by
   unfold InRange inst two63; simp
